@@ -4,15 +4,14 @@ From Scalibr Require Import Walk.Model Walk.Spec Walk.Sched Walk.Proofs Walk.Tra
   Walk.Invariant Walk.Faults Walk.Cases Walk.Witness.
 Import ListNotations.
 
-Lemma tree_quiet_dir c n ch df :
-  tree_quiet c (Dir n ch df) = (negb (c_gitignore c && c_fatal c) || gi_child_ok ch) && forallb (tree_quiet c) ch.
+Lemma tree_quiet_dir c n ch df : tree_quiet c (Dir n ch df) = forallb (tree_quiet c) ch.
 Proof. reflexivity. Qed.
 
 Lemma gi_readable_dir c n ch df :
   gi_readable c (Dir n ch df) = (negb (c_gitignore c) || gi_child_ok ch) && forallb (gi_readable c) ch.
 Proof. reflexivity. Qed.
 
-Definition quiet_or_fserr (c : cfg) (h : hcall) : bool := is_fserr h || call_quiet c h.
+Definition quiet_or_fserr (c : cfg) (h : hcall) : bool := abort_site c h || call_quiet c h.
 
 Lemma parse_dir_gi_ok p ch : gi_child_ok ch = true -> parse_dir_gi p ch <> GiErr.
 Proof.
@@ -21,13 +20,10 @@ Proof.
     apply negb_true_iff in H; rewrite H; discriminate.
 Qed.
 
-Lemma dir_decision_quiet c ms p ch :
-  negb (c_gitignore c && c_fatal c) || gi_child_ok ch = true -> dir_decision c ms p ch <> DGiErr.
+Lemma dir_decision_nonfatal c ms p ch : c_fatal c = false -> dir_decision c ms p ch <> DGiErr.
 Proof.
-  intros H. unfold dir_decision. destruct (should_skip_dir c ms p); [discriminate|].
-  destruct (c_gitignore c); [|discriminate]. cbn [andb] in H.
-  destruct (parse_dir_gi p ch) eqn:E; [|discriminate].
-  destruct (c_fatal c); [|discriminate]. cbn [negb orb] in H. exfalso. exact (parse_dir_gi_ok p ch H E).
+  intros F. unfold dir_decision. destruct (should_skip_dir c ms p); [discriminate|].
+  destruct (c_gitignore c); [|discriminate]. destruct (parse_dir_gi p ch); [rewrite F|]; discriminate.
 Qed.
 
 Lemma sched_children_quiet c ms' p nd : forall l,
@@ -45,27 +41,29 @@ Lemma schedule_quiet_or_fserr c : forall nd, tree_quiet c nd = true -> forall ms
   forallb (quiet_or_fserr c) (schedule c ms p nd) = true.
 Proof.
   induction nd as [n k sz d ff|n ch df IH] using node_ind2; intros Q ms p.
-  - cbn [schedule forallb quiet_or_fserr is_fserr call_quiet orb]. cbn [tree_quiet] in Q.
+  - cbn [schedule forallb quiet_or_fserr abort_site is_fserr gi_err_call call_quiet orb]. cbn [tree_quiet] in Q.
     destruct (ff_stat ff); [|rewrite !andb_false_r; reflexivity]. cbn [andb] in Q. apply negb_true_iff, orb_false_iff in Q as [_ Q].
     rewrite Q. reflexivity.
-  - rewrite schedule_dir. cbn [forallb]. rewrite tree_quiet_dir in Q. apply andb_true_iff in Q as [QG QC].
-    pose proof (dir_decision_quiet c ms p ch QG) as DD.
-    unfold quiet_or_fserr at 1. cbn [is_fserr call_quiet orb].
-    destruct (dir_decision c ms p ch) as [| |ms']; [reflexivity|contradiction|]. cbn [andb].
+  - rewrite schedule_dir. cbn [forallb]. rewrite tree_quiet_dir in Q.
+    unfold quiet_or_fserr at 1, abort_site. cbn [is_fserr gi_err_call call_quiet orb].
+    destruct (dir_decision c ms p ch) as [| |ms']; [reflexivity|reflexivity|]. cbn [andb].
     destruct (df_open df); [reflexivity|]. apply sched_children_quiet; assumption.
 Qed.
 
 Lemma quiet_all c l : c_fatal c = false -> forallb (quiet_or_fserr c) l = true -> forallb (call_quiet c) l = true.
 Proof.
   intros F H. rewrite forallb_forall in *. intros [ms p nd b] Hin. specialize (H _ Hin).
-  unfold quiet_or_fserr in H. cbn [is_fserr] in H. destruct b; [|exact H]. cbn [call_quiet]. rewrite F. reflexivity.
+  unfold quiet_or_fserr, abort_site in H. cbn [is_fserr] in H. destruct b.
+  - cbn [call_quiet]. rewrite F. reflexivity.
+  - cbn [orb] in H. destruct nd as [n k sz d ff|n ch df]; [exact H|]. cbn [gi_err_call call_quiet] in *.
+    pose proof (dir_decision_nonfatal c ms p ch F) as D. destruct (dir_decision c ms p ch); [reflexivity|contradiction|reflexivity].
 Qed.
 
-Lemma quiet_no_fserr c l : existsb is_fserr l = false -> forallb (quiet_or_fserr c) l = true -> forallb (call_quiet c) l = true.
+Lemma quiet_no_fserr c l : existsb (abort_site c) l = false -> forallb (quiet_or_fserr c) l = true -> forallb (call_quiet c) l = true.
 Proof.
   intros E H. rewrite forallb_forall in *. intros h Hin. specialize (H _ Hin).
-  unfold quiet_or_fserr in H. destruct (is_fserr h) eqn:B; [|exact H].
-  exfalso. assert (existsb is_fserr l = true) by (apply existsb_exists; exists h; split; assumption). congruence.
+  unfold quiet_or_fserr in H. destruct (abort_site c h) eqn:B; [|exact H].
+  exfalso. assert (existsb (abort_site c) l = true) by (apply existsb_exists; exists h; split; assumption). congruence.
 Qed.
 
 Lemma run_fs_root c t st : c_paths c = [] ->
@@ -99,15 +97,35 @@ Proof.
 Qed.
 
 (* fatal = true *)
+Lemma handle_file_gi_err c ms p n ch df st : no_limits c = true ->
+  dir_decision c ms p ch = DGiErr ->
+  exists st', handle_file c p (Dir n ch df) false (set_stack st ms) = WOk st' (Abort AbFs).
+Proof.
+  intros NL DD. unfold no_limits in NL. apply andb_true_iff in NL as [NI NC].
+  unfold handle_file, hf_prelude.
+  assert (L : ((0 <? c_max_inodes c)%Z && (c_max_inodes c <? s_inodes (inc_inodes (set_stack st ms)))%Z) = false).
+  { apply Z.leb_le in NI. destruct (0 <? c_max_inodes c)%Z eqn:E; [apply Z.ltb_lt in E; lia|reflexivity]. }
+  rewrite L.
+  assert (CC : cancelled c (visit (inc_inodes (set_stack st ms)) p) = false).
+  { unfold cancelled. destruct (c_cancel c); [reflexivity|discriminate|discriminate]. }
+  rewrite CC, hf_dir_decision.
+  replace (s_stack (visit (inc_inodes (set_stack st ms)) p)) with ms by (destruct st; reflexivity).
+  rewrite DD. eexists. reflexivity.
+Qed.
+
 Lemma exec_first_fserr c : c_fatal c = true -> no_limits c = true -> no_xpanic c -> forall l st,
-  forallb (quiet_or_fserr c) l = true -> existsb is_fserr l = true -> exists st', exec c l st = EAbort st' AbFs.
+  forallb (quiet_or_fserr c) l = true -> existsb (abort_site c) l = true -> exists st', exec c l st = EAbort st' AbFs.
 Proof.
   intros F NL NP. induction l as [|[ms p nd b] l IH]; intros st Q E; [discriminate|].
-  cbn [forallb existsb is_fserr] in *. apply andb_true_iff in Q as [Q1 Q2]. cbn [exec].
-  destruct b.
-  - rewrite handle_file_fserr_result by exact NL. rewrite F. eexists; reflexivity.
-  - cbn [orb] in E. unfold quiet_or_fserr in Q1. cbn [is_fserr orb] in Q1.
-    destruct (handle_file_quiet c ms p nd false st NL NP Q1) as (st1 & sg & H & SG & _). rewrite H.
+  cbn [forallb existsb] in *. apply andb_true_iff in Q as [Q1 Q2]. cbn [exec].
+  destruct (abort_site c (HC ms p nd b)) eqn:AS.
+  - unfold abort_site in AS. cbn [is_fserr] in AS. destruct b.
+    + rewrite handle_file_fserr_result by exact NL. rewrite F. eexists; reflexivity.
+    + cbn [orb] in AS. destruct nd as [n k sz d ff|n ch df]; [discriminate|]. cbn [gi_err_call] in AS.
+      destruct (dir_decision c ms p ch) eqn:DD; try discriminate.
+      destruct (handle_file_gi_err c ms p n ch df st NL DD) as [st' H]. rewrite H. eexists; reflexivity.
+  - cbn [orb] in E. unfold quiet_or_fserr in Q1. rewrite AS in Q1. cbn [orb] in Q1.
+    destruct (handle_file_quiet c ms p nd b st NL NP Q1) as (st1 & sg & H & SG & _). rewrite H.
     destruct (IH st1 Q2 E) as [st' E']. exists st'. destruct sg; [exact E'|exact E'|contradiction].
 Qed.
 
@@ -119,7 +137,7 @@ Proof.
   pose proof (schedule_quiet_or_fserr c t Q [] [DOT]) as QS.
   destruct (node_stat_fails t); cbn [orb].
   - rewrite handle_file_fserr_result by exact NL. rewrite F. split; [intros [st H]; discriminate|discriminate].
-  - destruct (existsb is_fserr (schedule c [] [DOT] t)) eqn:E.
+  - destruct (existsb (abort_site c) (schedule c [] [DOT] t)) eqn:E.
     + split; [|discriminate]. intros [st H]. exfalso.
       destruct (exec_first_fserr c F NL NP _ init_state QS E) as [st' X].
       pose proof (walk_node_exec c t [DOT] init_state) as A. cbn [s_stack init_state] in A. rewrite X, H in A.
